@@ -3,6 +3,8 @@ package main
 import (
 	"fmt"
 	"reflect"
+	"runtime"
+	"sync"
 	"unsafe"
 
 	"github.com/mlange-42/arche/ecs"
@@ -24,12 +26,131 @@ type Payload struct {
 
 const payloadMagic = 0xA5C3E1F00F1E3C5A
 
-func newPayload(token int64) *Payload {
-	p := &Payload{Magic: payloadMagic, Token: token, Check: ^uint64(token) ^ payloadMagic}
+// payload accounting for the release checks (C14)
+var payMu sync.Mutex
+var payCreated = map[int64]int{}   // token -> number of payload objects created
+var payFinalized = map[int64]int{} // token -> number of payload objects finalized
+var payTrack bool
+
+func fillPayload(p *Payload, token int64) {
+	p.Magic, p.Token, p.Check = payloadMagic, token, ^uint64(token)^payloadMagic
 	for i := range p.Pad {
 		p.Pad[i] = uint64(token)*uint64(i+3) + 17
 	}
+}
+
+func newPayload(token int64) *Payload {
+	p := &Payload{}
+	fillPayload(p, token)
+	if payTrack {
+		payMu.Lock()
+		payCreated[token]++
+		payMu.Unlock()
+		runtime.SetFinalizer(p, func(q *Payload) {
+			payMu.Lock()
+			payFinalized[q.Token]++
+			payMu.Unlock()
+		})
+	}
 	return p
+}
+
+// Static pointer-carrying component types (needed for non-escaping call-site shapes).
+type ptrS0 struct {
+	P *Payload
+	T int64
+}
+type ptrS1 struct {
+	P *Payload
+	T int64
+}
+type ptrS2 struct {
+	P *Payload
+	T int64
+}
+type ptrS3 struct {
+	P *Payload
+	T int64
+}
+
+var ptrStatic = []reflect.Type{reflect.TypeOf(ptrS0{}), reflect.TypeOf(ptrS1{}), reflect.TypeOf(ptrS2{}), reflect.TypeOf(ptrS3{})}
+var ptrStaticUsed = 0
+var ptrStaticByNum = map[int]int{}
+
+//go:noinline
+func clobberStack() int {
+	var junk [4096]uint64
+	for i := range junk {
+		junk[i] = 0xdeadbeefdeadbeef ^ uint64(i)
+	}
+	s := 0
+	for i := range junk {
+		s += int(junk[i] & 1)
+	}
+	return s
+}
+
+// setNonEscaping calls World.Set with a component literal and a payload that live in this frame
+// unless the compiler decides that the argument escapes.
+//
+//go:noinline
+func setNonEscaping(w *ecs.World, e ecs.Entity, id ecs.ID, which int, token int64) {
+	var pl Payload
+	fillPayload(&pl, token)
+	switch which {
+	case 0:
+		c := ptrS0{P: &pl, T: token}
+		w.Set(e, id, &c)
+	case 1:
+		c := ptrS1{P: &pl, T: token}
+		w.Set(e, id, &c)
+	case 2:
+		c := ptrS2{P: &pl, T: token}
+		w.Set(e, id, &c)
+	default:
+		c := ptrS3{P: &pl, T: token}
+		w.Set(e, id, &c)
+	}
+}
+
+//go:noinline
+func assignNonEscaping(w *ecs.World, e ecs.Entity, id ecs.ID, which int, token int64) {
+	var pl Payload
+	fillPayload(&pl, token)
+	switch which {
+	case 0:
+		c := ptrS0{P: &pl, T: token}
+		w.Assign(e, ecs.Component{ID: id, Comp: &c})
+	case 1:
+		c := ptrS1{P: &pl, T: token}
+		w.Assign(e, ecs.Component{ID: id, Comp: &c})
+	case 2:
+		c := ptrS2{P: &pl, T: token}
+		w.Assign(e, ecs.Component{ID: id, Comp: &c})
+	default:
+		c := ptrS3{P: &pl, T: token}
+		w.Assign(e, ecs.Component{ID: id, Comp: &c})
+	}
+}
+
+//go:noinline
+func newWithNonEscaping(w *ecs.World, id ecs.ID, which int, token int64) ecs.Entity {
+	var pl Payload
+	fillPayload(&pl, token)
+	switch which {
+	case 0:
+		c := ptrS0{P: &pl, T: token}
+		return w.NewEntityWith(ecs.Component{ID: id, Comp: &c})
+	case 1:
+		c := ptrS1{P: &pl, T: token}
+		return w.NewEntityWith(ecs.Component{ID: id, Comp: &c})
+	case 2:
+		c := ptrS2{P: &pl, T: token}
+		return w.NewEntityWith(ecs.Component{ID: id, Comp: &c})
+	default:
+		c := ptrS3{P: &pl, T: token}
+		return w.NewEntityWith(ecs.Component{ID: id, Comp: &c})
+	}
 }
 
 func (p *Payload) intact(token int64) bool {
@@ -82,6 +203,14 @@ func makeType(kind string, n int) reflect.Type {
 	case "relv":
 		return reflect.StructOf([]reflect.StructField{rel, f("V", i64)})
 	case "ptr":
+		if k, ok := ptrStaticByNum[n]; ok {
+			return ptrStatic[k]
+		}
+		if ptrStaticUsed < len(ptrStatic) && n < 256 {
+			ptrStaticByNum[n] = ptrStaticUsed
+			ptrStaticUsed++
+			return ptrStatic[ptrStaticByNum[n]]
+		}
 		return reflect.StructOf([]reflect.StructField{f("P", reflect.TypeOf((*Payload)(nil))), f("T", i64)})
 	case "slice":
 		return reflect.StructOf([]reflect.StructField{f("S", reflect.TypeOf([]*Payload(nil))), f("T", i64)})
